@@ -228,7 +228,57 @@ pub fn main(args: &Args) -> i32 {
     rep.write(args)
 }
 
+/// A sequence of data sets: the consecutive deltas are merged oldest first
+/// (as `PayloadHistory::delta_since` does) and every intermediate merge is
+/// compared with the direct delta.
+fn sequence(rep: &mut Report, d: &Dict, b: &Value, idx: usize, seed: u64) {
+    let sets: Vec<AbsSet> = b["sets"].as_array().unwrap().iter().map(AbsSet::from_json).collect();
+    let rev = (idx as u64 + seed) % 2 == 1;
+    let snaps: Vec<PayloadSnapshot> = sets.iter().enumerate().map(|(i, s)| snapshot(d, s, rev ^ (i % 2 == 1))).collect();
+    let start: Serial = match idx % 3 { 0 => 0.into(), 1 => (u32::MAX - 1).into(), _ => 77.into() };
+    let deltas: Vec<PayloadDelta> = (0..sets.len() - 1).map(|i| {
+        let ser = start.add(i as u32);
+        PayloadDelta::construct(&snaps[i], &snaps[i + 1], ser).unwrap_or_else(|| PayloadDelta::empty(ser.add(1)))
+    }).collect();
+    let mut acc = deltas[0].clone();
+    for k in 1..deltas.len() {
+        acc = acc.merge(&deltas[k]);
+        let direct = PayloadDelta::construct(&snaps[0], &snaps[k + 1], start)
+            .unwrap_or_else(|| PayloadDelta::empty(start.add(1)));
+        let m_acts = abs_actions(d, &acc);
+        let d_acts = abs_actions(d, &direct);
+        rep.eval("C12");
+        let ctx = json!({"dict": d.name, "sets": sets.iter().map(|s| s.to_json()).collect::<Vec<_>>(), "merged_deltas": k + 1});
+        if k >= 2 { rep.nontrivial("C12", format!("seq|{}|{:?}|{}", d.name, sets, k)); }
+        if m_acts != d_acts {
+            rep.violation("C12", &format!("merge/differs-from-direct/{}-deltas", k + 1),
+                format!("merging {} consecutive change sets differs from the direct change set", k + 1),
+                ctx.clone(), json!({"merged": m_acts, "direct": d_acts}));
+        }
+        match apply(&sets[0], &m_acts) {
+            Ok(ref got) if *got == sets[k + 1] => {}
+            Ok(got) => rep.violation("C12", &format!("merge/apply/{}-deltas", k + 1),
+                "a client catching up over several versions does not end with the current data set",
+                ctx.clone(), json!({"merged": m_acts, "result": got.to_json()})),
+            Err(e) => rep.violation("C12", &format!("merge/not-applicable/{}-deltas", k + 1), e, ctx.clone(), json!({"merged": m_acts})),
+        }
+        if acc.announce_len() != count(&m_acts, "A") || acc.withdraw_len() != count(&m_acts, "W") {
+            rep.violation("C12", "merge/counts", "announce_len/withdraw_len of a merged change set do not match its actions",
+                ctx.clone(), json!({"merged": m_acts}));
+        }
+        let exp = expected_actions(&b["merged"][k - 1]);
+        if m_acts != exp {
+            rep.divergence("C12", format!("merged action list differs from the specification: real {:?} spec {:?}", m_acts, exp));
+            rep.add_note("C12", "model_mismatches", 1);
+        }
+    }
+    rep.trace("C12");
+}
+
 fn one(rep: &mut Report, d: &Dict, b: &Value, idx: usize, seed: u64) {
+    if b.get("sets").is_some() {
+        return sequence(rep, d, b, idx, seed)
+    }
     let a_set = AbsSet::from_json(&b["a"]);
     let b_set = AbsSet::from_json(&b["b"]);
     let c_set = AbsSet::from_json(&b["c"]);
